@@ -91,6 +91,30 @@ static std::string handle(const std::vector<std::string>& f)
                 }
             }
         }
+        if (pos.size() > 2 && pos.at(2) == "1")
+        {
+            // every entry is asked for by name once more, last group first (the way code that adds an
+            // environment binding or a default later does): that returns the object declared before and
+            // declares nothing
+            for (std::size_t gi = groups.size(); gi-- > 0;)
+            {
+                auto g = nv::splitc(groups[gi], ':');
+                if (g.at(2).empty())
+                    continue;
+                no::group& grp = gi == 0 ? p.group() : p.group(nv::unhex(g.at(0)));
+                for (auto& et : nv::splitc(g.at(2), '|'))
+                {
+                    auto e = nv::splitc(et, ',');
+                    std::string name = nv::unhex(e.at(1)), mv = nv::unhex(e.at(4));
+                    if (e.at(0) == "o")
+                        grp.option(name).metavar(mv);
+                    else if (e.at(0) == "m")
+                        grp.multi_option(name).metavar(mv);
+                    else
+                        grp.toggle(name);
+                }
+            }
+        }
         if (pos.at(0) == "1")
         {
             p.accept_positionals();
